@@ -19,6 +19,7 @@
 # -----------------------------------------------------------------------------
 # 📦 Standard Library Imports
 # -----------------------------------------------------------------------------
+import json
 import logging
 import threading
 import time
@@ -138,6 +139,9 @@ class SyncInterpreter(BaseInterpreter[TContext, TEvent]):
         #: and the engine's own timer / delayed-send / actor threads.
         self._drain_lock = threading.Lock()
         self._stop_lock = threading.RLock()
+        #: Ids of children spawned in blocking mode: no actor thread watches
+        #: them, and a snapshot says so (see `from_snapshot`).
+        self._blocking_actors: Set[str] = set()
         #: Events this machine queued onto itself during the current drain,
         #: and the thread running that drain.
         self._self_raised: int = 0
@@ -1348,9 +1352,11 @@ class SyncInterpreter(BaseInterpreter[TContext, TEvent]):
         self._register_in_system(spawn_params.get("systemId"), child)
         self._actors[actor_id] = child
         self._actor_sources[actor_id] = key
+        self._blocking_actors.discard(actor_id)
 
         # --- Blocking Execution Path ---
         if blocking:
+            self._blocking_actors.add(actor_id)
             child.start()
             if on_complete is not None:
                 self._queue_actor_done(child, on_complete, scope)
@@ -1368,36 +1374,84 @@ class SyncInterpreter(BaseInterpreter[TContext, TEvent]):
                     return
                 # 🚀 Start the actor in the background thread.
                 child.start()
-                # 🔄 Keep the thread alive while the child runs and is still
-                #    registered with its parent.
-                while (
-                    child.status == "running"
-                    and self._actors.get(actor_id) is child
-                ):
-                    # 🏁 Exit loop if the child reaches a top-level final state.
-                    if any(
-                        s.is_final and s.parent == child.machine
-                        for s in child._active_state_nodes
-                    ):
-                        break
-                    time.sleep(0.01)  # 🤏 Yield to prevent busy-waiting.
+                self._watch_actor(actor_id, child)
             finally:
                 # 🧹 Ensure cleanup happens whether the child finishes or is stopped.
                 if on_complete is not None:
                     self._queue_actor_done(child, on_complete, scope)
-                child.stop()
-                # 🧹 Only drop the registration if it is still OURS. After
-                #    `stopChild` a new actor may already have been spawned
-                #    under the same explicit id; popping unconditionally
-                #    removed that new child from the children map.
-                if self._actors.get(actor_id) is child:
-                    self._actors.pop(actor_id, None)
-                logger.info("🧹 Actor thread for '%s' cleaned up.", actor_id)
+                self._drop_actor(actor_id, child)
 
         # 🚀 Start the thread
         threading.Thread(
             target=_runner, daemon=True, name=f"actor-{actor_id}"
         ).start()
+
+    def _watch_actor(self, actor_id: str, child: "SyncInterpreter") -> None:
+        """Blocks while `child` runs and is still registered with this parent."""
+        # 🔄 Keep the thread alive while the child runs and is still
+        #    registered with its parent.
+        while (
+            child.status == "running" and self._actors.get(actor_id) is child
+        ):
+            # 🏁 Exit loop if the child reaches a top-level final state.
+            if any(
+                s.is_final and s.parent == child.machine
+                for s in child._active_state_nodes
+            ):
+                break
+            time.sleep(0.01)  # 🤏 Yield to prevent busy-waiting.
+
+    def _drop_actor(self, actor_id: str, child: "SyncInterpreter") -> None:
+        """Stops a finished (or stopped) child and drops its registration."""
+        child.stop()
+        # 🧹 Only drop the registration if it is still OURS. After
+        #    `stopChild` a new actor may already have been spawned
+        #    under the same explicit id; popping unconditionally
+        #    removed that new child from the children map.
+        if self._actors.get(actor_id) is child:
+            self._actors.pop(actor_id, None)
+        logger.info("🧹 Actor thread for '%s' cleaned up.", actor_id)
+
+    def _persist_actors(self, seen: Set[int]) -> Dict[str, Any]:
+        """Serialises child actors, marking those spawned in blocking mode."""
+        records = super()._persist_actors(seen)
+        for actor_id in self._blocking_actors:
+            if actor_id in self._actors and actor_id in records:
+                records[actor_id]["blocking"] = True
+        return records
+
+    @classmethod
+    def from_snapshot(  # type: ignore[override]
+        cls, snapshot_str: str, machine: MachineNode[TContext, TEvent]
+    ) -> "SyncInterpreter[TContext, TEvent]":
+        """Restores an interpreter, and the supervision of its child actors.
+
+        A spawned child is watched by its actor thread, which stops it and
+        drops its registrations once it reaches a top-level final state. A
+        restored child had no such thread: when it finished it stayed in the
+        children map and in the system registry for good, unlike in the run
+        the snapshot was taken from. Children spawned in blocking mode never
+        had one, and stay unwatched.
+        """
+        interpreter = super().from_snapshot(snapshot_str, machine)
+        records = json.loads(snapshot_str).get("actors") or {}
+        for actor_id, child in list(interpreter._actors.items()):
+            if (records.get(actor_id) or {}).get("blocking"):
+                interpreter._blocking_actors.add(actor_id)
+                continue
+
+            def _supervise(
+                actor_id: str = actor_id, child: Any = child
+            ) -> None:
+                try:
+                    interpreter._watch_actor(actor_id, child)
+                finally:
+                    interpreter._drop_actor(actor_id, child)
+
+            threading.Thread(
+                target=_supervise, daemon=True, name=f"actor-{actor_id}"
+            ).start()
+        return interpreter  # type: ignore[return-value]
 
     def _queue_actor_done(
         self,
